@@ -17,6 +17,9 @@ def gen_axis_item(rnd, size, infinite, listlen=None):
     npint = (lambda v: np.int64(v)) if rnd.random() < 0.25 else (lambda v: v)       # NumPy integers are integers too
     if r < 0.35: return npint(rnd.randrange(size)) if infinite or rnd.random() < 0.7 else npint(-rnd.randint(1, size))
     if r < 0.55:
+        if rnd.random() < 0.05: return []                                           # an empty list selects nothing
+        if rnd.random() < 0.06:                                                     # a rank-2 index (nested list): NumPy's rule, outside the model's grammar
+            return [[rnd.randrange(size) for _ in range(2)] for _ in range(rnd.randint(1, 2))]
         n = listlen if listlen and rnd.random() < 0.8 else rnd.randint(1, 3)
         if rnd.random() < 0.15: n = 1                                              # broadcast against longer lists
         return [rnd.randrange(size) if infinite or rnd.random() < 0.8 else -rnd.randint(1, size) for _ in range(n)]
@@ -63,7 +66,8 @@ def main(seed, ncases, driver, out):
     for c in range(ncases):
         if skip(c): continue
         rnd = case_rnd(seed, c)
-        shape = tuple(rnd.randint(1, 3) for _ in range(rnd.choice([0, 1, 2, 2]))); ninf = rnd.choice([1, 1, 2]) if shape else rnd.choice([1, 2])
+        shape = tuple(rnd.randint(1, 3) for _ in range(rnd.choice([0, 1, 2, 2, 3]))); ninf = rnd.choice([1, 1, 2]) if shape else rnd.choice([1, 2])
+        if len(shape) == 3 and ninf == 2: ninf = 1
         top = 4; log = []
         def ev(*idx, log=log):
             log.append(idx)
@@ -78,14 +82,16 @@ def main(seed, ncases, driver, out):
         if rnd.random() < 0.04: item = item[:-1] if rnd.random() < 0.5 or not shape else item + (0,)      # wrong number of indices
         desc = {"shape": list(shape), "n_infinite": ninf, "item": show(item)}
         if len(samples) < 3: samples.append(desc)
+        nested = any(isinstance(x, list) and any(isinstance(y, list) for y in x) for x in item)
+        if nested: dist["nested lists (NumPy only)"] = dist.get("nested lists (NumPy only)", 0) + 1
         # ---- the model's NumPy rule against NumPy, on the dense array
-        ml = ask({"cmd": "index", "shape": list(shape), "dense": list(dense.shape), "item": enc(item)})
+        ml = ask({"cmd": "index", "shape": list(shape), "dense": list(dense.shape), "item": enc(item)}) if not nested else "skip"
         flat = np.arange(dense.size).reshape(dense.shape)
         try: npres = flat[item]
         except IndexError: npres = "err index"
         except Exception: npres = "err other"
-        md = parse_model(ml)
-        if len(item) != dense.ndim: pass                          # (NumPy pads a short item with full slices; the series rejects it)
+        md = parse_model(ml) if not nested else None
+        if nested or len(item) != dense.ndim: pass                          # (NumPy pads a short item with full slices; the series rejects it)
         elif isinstance(npres, str) or isinstance(md, str):
             if not (isinstance(md, str) and md == npres):
                 failures.append(dict(desc, kind="model-vs-numpy: error class", correspondence_only=True, model=str(md)[:80], numpy=str(npres)[:80]))
@@ -95,7 +101,7 @@ def main(seed, ncases, driver, out):
             if tuple(np.shape(npres)) != md[0] or want_src != got_src:
                 failures.append(dict(desc, kind="model-vs-numpy: selection", correspondence_only=True, model=str(md)[:120], numpy=str((np.shape(npres), want_src))[:120]))
         # ---- finite-dimension-only item: a view
-        if len(item) == len(shape) + ninf and shape and rnd.random() < 0.25:
+        if len(item) == len(shape) + ninf and shape and rnd.random() < 0.25 and not nested:
             fitem = item[:len(shape)]; dist["view"] = dist.get("view", 0) + 1
             mv = parse_model(ask({"cmd": "index", "shape": list(shape), "dense": list(shape), "item": enc(fitem)}))
             try: v = s[fitem]
@@ -131,7 +137,7 @@ def main(seed, ncases, driver, out):
         wrong_count = len(item) != len(shape) + ninf and not (len(item) == len(shape) and ninf)
         expect_err = any(bad_order(o) for o in item[len(shape):]) or wrong_count
         kind = "error-expected" if expect_err else "value"; dist[kind] = dist.get(kind, 0) + 1
-        mg = parse_model(ask({"cmd": "index", "shape": list(shape), "ninf": ninf, "item": enc(item)}))
+        mg = parse_model(ask({"cmd": "index", "shape": list(shape), "ninf": ninf, "item": enc(item)})) if not nested else None
         if len(item) == len(shape) and ninf: mg = None           # (a view: handled above when chosen; otherwise nothing is evaluated)
         if expect_err and mg is not None and mg != "err index":
             failures.append(dict(desc, kind="model accepts a negative or infinite order", correspondence_only=True, model=str(mg)[:80]))
@@ -151,14 +157,16 @@ def main(seed, ncases, driver, out):
         if expect_err:
             failures.append(dict(desc, kind="negative-or-infinite-order-accepted", got=str(got)[:80])); continue
         if isinstance(got, BlockSeries): continue                # finite-only item not chosen for the view comparison
-        if isinstance(mg, str):
+        if mg is None: pass
+        elif isinstance(mg, str):
             failures.append(dict(desc, kind="model-vs-implementation: the model rejects what the code accepts", correspondence_only=True, model=mg)); continue
-        mshape, msrc, mev = mg
-        if tuple(np.shape(got)) != mshape:
+        mshape, msrc, mev = mg if mg is not None else (tuple(np.shape(got)), None, None)
+        if mg is None: pass
+        elif tuple(np.shape(got)) != mshape:
             failures.append(dict(desc, kind="model-vs-implementation: result shape", correspondence_only=True, model=str(mshape), got=str(np.shape(got))))
         elif [dense[t] for t in msrc] != list(np.ma.filled(got, zero).reshape(-1) if isinstance(got, np.ma.MaskedArray) else np.asarray(got, dtype=object).reshape(-1)):
             failures.append(dict(desc, kind="model-vs-implementation: entries", correspondence_only=True))
-        if sorted(set(log)) != mev or len(log) != len(mev):
+        if mg is not None and (sorted(set(log)) != mev or len(log) != len(mev)):
             failures.append(dict(desc, kind="model-vs-implementation: evaluated elements", correspondence_only=True, model=str(mev)[:120], got=str(log)[:120]))
         want = dense[item]
         if isinstance(want, np.ndarray):
